@@ -27,7 +27,9 @@ var propConfigs = map[string]*propConfig{
 		"not decided: the generated top-level netlist (Verilog text), stream equality between HDL and simulation, timing; index safety of Step is assumed (frameonly), array shapes and pairwise distinctness of the tick's arrays are preconditions established by VM.Init (not under contract)",
 		"the channel barrier is modelled as a synchronisation point at which other goroutines may change anything except the tick's own arrays and the machine description (sync preserves clause, an assumption supported by C09's frame results)",
 	}},
-	"C04": {pkgs: []string{"./pkg/procbuilder", "./pkg/bondmachine"}, notes: []string{
+	"C04": {pkgs: []string{"./pkg/procbuilder", "./pkg/bondmachine"}, extra: c04Canary, notes: []string{
+		"decided, per step, also for sicv3: it acknowledges and advances only in a step where valid is up and registers the deferred drop for that input in every such step",
+		"known finding (whole-history, outside the per-step contracts; listed in known_findings.json and replayed on the real simulator on every run): r2owa instructions executed in a row on one bond lose a value, because the second one completes on the still-raised acknowledge of the first transfer",
 		"decided, per step: r2owa raises valid with the register's value and advances only in a step where received is already up, dropping valid in that same step; i2rw copies the input, raises received and advances only in a step where valid is up, and registers the deferred drop under a per-input key; the deferred drop lowers received exactly when valid has fallen; the received line an output sees is the conjunction over its consumers (VM.Step)",
 		"not decided: that these steps compose to exactly-once, in-order delivery for every relative timing and fan-out (a whole-history protocol property over independently stepping processors), sicv3's counting state machine, and the HDL state machines",
 	}},
@@ -43,9 +45,10 @@ var propConfigs = map[string]*propConfig{
 		"transient fields by declaration: Conproc.CpID, Conproc.SharedHDLOps, Arch.Tag (assigned by the HDL writer before use)",
 		"not decided: 'simulates identically / regenerates byte-identical Verilog' (follows only if those depend on persisted fields alone), the textual round trip of the kbd, uart and vtextmem shared objects (parameters parsed with strings.Split; only their claim on the text prefix is proved), EventuallyCreateInstruction (trusted contract: it keeps registered opcodes in place and does not append when the name is already registered), encoding/json itself",
 	}},
-	"C14": {pkgs: []string{"./pkg/bmmatrix", "./pkg/bmqsim", "./pkg/bmline", "./pkg/bmmeta"}, extra: c14Canary, notes: []string{
+	"C14": {pkgs: []string{"./pkg/bmmatrix", "./pkg/bmqsim", "./pkg/bmline", "./pkg/bmmeta"}, extra: func(c *checkRun) { c14Canary(c); c14Bounded(c) }, notes: []string{
 		"decided for the layering: QasmToBmMatrices hands BmMatrixFromOperation only layers in which no qubit is named twice (the precondition the matrix builder relies on), at both flush sites, for circuits of any length; the layer under construction is always exactly the contiguous run of source lines ending at the current line (no line skipped, duplicated or reordered) and its qubits are exactly those recorded as in use",
-		"decided for the software simulation: RunSoftwareSimulation gives every input state vector a buffer of its own: the output vectors are freshly allocated, pairwise distinct arrays, no input vector and no output already stored is written again (loop frame), and the input list is unchanged; MatrixVectorProductComplex and StateSize are trusted (float arithmetic / math.Pow)",
+		"decided for the software simulation: RunSoftwareSimulation gives every input state vector a buffer of its own: the output vectors are freshly allocated, pairwise distinct arrays, no input vector and no output already stored is written again (loop frame), and the input list is unchanged; StateSize is trusted (math.Pow)",
+		"decided for the matrix-vector product: every component of the result of MatrixVectorProductComplex is the complete sum of the N products of its row with the vector, accumulated in index order from zero (a functional contract over uninterpreted float32 operations: no arithmetic law is used, so a term that is skipped, repeated or reordered fails); Complex32Add/Complex32Mul are proved to be the component formulas",
 		"decided (discrete kernel only): bmmatrix.SwapRowsColsComplex is exact data movement, result[i][j] == a[tau(i)][tau(j)] for the transposition tau=(x y), for well-formed square matrices of any size, leaving its argument untouched; NewBmMatrixSquareComplex returns a fresh, zeroed, well-formed matrix whose rows do not share storage; IdentityComplex is the identity pattern (float32 values are opaque: no floating-point arithmetic is interpreted)",
 		"not decided: that the emitted matrices multiply to the circuit's unitary and are unitary within tolerance (nonlinear float32 arithmetic is outside this family), swaps2baseSwaps (64-bit bit manipulation and a map; no bit-vector mode in the engine), BmMatrixFromOperation's argument reordering (trusted contract), termination of the layering loop (a 'nextop' pseudo-instruction or a gate naming one qubit twice is never consumed), the numeric content of the simulated state",
 		"defect F3 (two two-qubit gates on interleaved qubits in one layer compiled to the matrix of the adjacent circuit; repaired by a fix: commit) is watched on every run by replaying its recorded circuit on the real compiler; that replay is a test of one input, not a proof, and is not counted among the obligations",
@@ -62,6 +65,7 @@ var propConfigs = map[string]*propConfig{
 	}},
 	"C08": {pkgs: []string{"./pkg/bmnumbers"}, extra: func(c *checkRun) { c.regLanObligations("bmnumbers") }, notes: []string{
 		"decided for clause (b), binary renderings: ExportBinaryNBits returns exactly the requested number of binary digits or an error; ExportVerilogBinary returns <bits>'b followed by binary digits, exactly <bits> of them unless the value needs more (then no leading zero); ExportBinary strips every leading zero; for byte strings of any length and any declared width",
+		"decided for clause (b), hex text: Hex.ExportString always prints at least one digit after the size and no leading zero unless it is the only digit (so the sized-hex notation accepts its own output); binImportNoSize stores exactly as many bits as digits were captured, binImportWithSize never fewer",
 		"decided for clause (b), importers: binImportNoSize/WithSize, hexImportNoSize/WithSize and unsignedImportNoSize/WithSize store a byte string of exactly the stated width (8*len within one byte of bits; exactly bits for hex) and never index out of range, for arbitrary captured digit strings; this is how the sized-hex defect (one byte per declared bit) was found",
 		"not decided for clause (b): the values the importers store (regexp capture groups, strconv.ParseUint and hex.DecodeString are opaque), hex/decimal export, print/parse round trips through ImportString",
 		"float16/float32, fixed point, FloPoCo and linear-quantiser import/export go through strconv.ParseFloat and float scaling: floating point is outside this family; only the integer notations (unsigned, signed, bin, hex) are under functional contract",
@@ -70,6 +74,7 @@ var propConfigs = map[string]*propConfig{
 	"C09": {pkgs: []string{"./pkg/procbuilder", "./pkg/simbox"}, notes: []string{
 		"decided: every Opcode.Simulate (all opcode types except the nine emulator opcodes, which send on the VM's command channel) writes only cells of the VM it is given and reads only that VM and its machine description; run-time panics and callee preconditions are assumed not to occur (frameonly contracts)",
 		"not decided: the goroutine scheduler, the per-tick channel barrier of bondmachine.VM.Step, GOMAXPROCS, the race detector, and simbox.DelayDistribution (draws from the process-wide math/rand source by design)",
+		"DelayDistribution.GetValue is verified to write nothing (the delay model is shared by every processor and simulation); only the process-wide random source it draws from is outside the model",
 		"bit-reinterpretation helpers (Int8bits..., unsafe.Pointer casts) and the fixed-point arithmetic helpers are trusted to be functions of their arguments",
 	}},
 	"C10": {pkgs: []string{"./pkg/bondmachine"}, notes: []string{
@@ -285,47 +290,34 @@ func cmdCheck(args []string) {
 	if len(again) > 0 && len(again) <= 16 {
 		houdiniTimeoutS = 30
 		opts2 := opts
-		opts2.timeoutS = opts.timeoutS * 3
+		opts2.timeoutS = opts.timeoutS * 2
+		for _, alt := range []int{0, seed + 101, seed + 202} {
+			if alt != seed {
+				opts2.altSeeds = append(opts2.altSeeds, alt)
+			}
+		}
 		for _, i := range again {
-			vc2 := tasks[i].run()
-			if vc2.outside != "" {
-				continue
-			}
-			solveAll(vc2.obls, opts2)
-			// what is still undecided is tried with other solver seeds as well (any unsat answer is a proof)
-			for _, alt := range []int{0, seed + 101, seed + 202} {
-				if alt == opts2.seed {
-					continue
-				}
-				var rest []*Obligation
-				for _, o := range vc2.obls {
-					if !o.ok() && o.Result != "sat" && o.Result != "disagree" && !o.ExpectSat {
-						o.Result = ""
-						rest = append(rest, o)
-					}
-				}
-				if len(rest) == 0 || len(rest) > 24 {
-					for _, o := range rest {
-						o.Result = "timeout"
-					}
-					break
-				}
-				o3 := opts2
-				o3.seed = alt
-				solveAll(rest, o3)
-			}
-			bad1, bad2 := 0, 0
+			bad1 := 0
 			for _, o := range vcs[i].obls {
 				if !o.ok() {
 					bad1++
 				}
 			}
+			if bad1 > 12 {
+				continue // that many open obligations in one function are not a matter of solver luck
+			}
+			vc2 := tasks[i].run()
+			if vc2.outside != "" {
+				continue
+			}
+			solveAll(vc2.obls, opts2)
+			bad2 := 0
 			for _, o := range vc2.obls {
 				if !o.ok() {
 					bad2++
 				}
 			}
-			c.retried = append(c.retried, fmt.Sprintf("%s: %d undischarged at %ds, %d at %ds", tasks[i].key, bad1, opts.timeoutS, bad2, opts2.timeoutS))
+			c.retried = append(c.retried, fmt.Sprintf("%s: %d undischarged at %ds, %d at %ds with additional solver seeds", tasks[i].key, bad1, opts.timeoutS, bad2, opts2.timeoutS))
 			if bad2 < bad1 {
 				vcs[i] = vc2
 			}
@@ -478,7 +470,11 @@ func (c *checkRun) report(cfg *propConfig) {
 		if k := isKnown(name); k != nil {
 			knownSeen[k.Obligation] = k
 		} else {
-			add(name, "replay of a recorded failing input still fails and the finding is not listed", nil)
+			if strings.Contains(name, "#bounded[") {
+				add(name, "bounded exhaustive check (stated bound, not a proof) found a failing input on the real code", nil)
+			} else {
+				add(name, "replay of a recorded failing input still fails and the finding is not listed", nil)
+			}
 		}
 	}
 	for _, k := range sortedKeys(knownSeen) {
